@@ -301,7 +301,9 @@ class FourierTransformer(BilateralForwardTransformer):
                 b = other.args[1].args[0].args[1] * I
 
                 # t / (a * t - j * b)
-                return const * (DiracDelta(sf) / a - 2 * pi * b / a**2 * exp(2 * pi * b / a * sf) * Heaviside(f))
+                if (b / a).is_negative:
+                    return const * (DiracDelta(sf) / a + 2 * pi * b / a**2 * exp(2 * pi * b / a * sf) * Heaviside(sf))
+                return const * (DiracDelta(sf) / a - 2 * pi * b / a**2 * exp(2 * pi * b / a * sf) * Heaviside(-sf))
             elif (other.is_Mul and other.args[0] == t and
                   other.args[1].is_Pow and other.args[1].args[1] == -1 and
                   other.args[1].args[0].is_Add and
@@ -310,8 +312,10 @@ class FourierTransformer(BilateralForwardTransformer):
                 b = other.args[1].args[0].args[0] * I
                 a = other.args[1].args[0].args[1] / t
 
-                # t / (j * b - a * t)
-                return const * (DiracDelta(sf) / a - 2 * pi * b / a**2 * exp(2 * pi * b / a * sf) * Heaviside(f))
+                # t / (a * t - j * b)
+                if (b / a).is_negative:
+                    return const * (DiracDelta(sf) / a + 2 * pi * b / a**2 * exp(2 * pi * b / a * sf) * Heaviside(sf))
+                return const * (DiracDelta(sf) / a - 2 * pi * b / a**2 * exp(2 * pi * b / a * sf) * Heaviside(-sf))
 
             if expr == t * DiracDelta(t, 1):
                 return const * sf / (-I * 2 * pi)
